@@ -236,7 +236,7 @@ func secretKeyResponseFieldRuleFor(P *Program, R *Report, rule string) {
 					continue
 				}
 				var base, exp ssa.Value
-				if calleeName(call) == "common.ModPow" {
+				if calleeIs(call, "common.ModPow") {
 					base, exp = call.Call.Args[0], call.Call.Args[1]
 				} else if bigMethod(call) == "Exp" {
 					base, exp = call.Call.Args[1], call.Call.Args[2]
